@@ -109,16 +109,22 @@ def main():
         tr = {"id": "%s/h%d" % (job["backend"], hi), "base": [obs(o) for o in pool], "events": []}
         for h in hist:
             a = pool[h["i"] - 1]
-            if h["op"] == "add":
-                r = a + pool[h["j"] - 1]
-            elif h["op"] == "sub":
-                r = a - pool[h["j"] - 1]
-            elif h["op"] == "neg":
-                r = -a
-            else:
-                r = a * (h["s"] + h["t"] * p)
+            raised = ""
+            try:
+                if h["op"] == "add":
+                    r = a + pool[h["j"] - 1]
+                elif h["op"] == "sub":
+                    r = a - pool[h["j"] - 1]
+                elif h["op"] == "neg":
+                    r = -a
+                else:
+                    r = a * (h["s"] + h["t"] * p)
+            except Exception as e:
+                # an operation of the algebra that raises is an outcome to be judged, not a failure of the harness
+                raised = type(e).__name__
+                r = be.zero()
             pool.append(r)
-            tr["events"].append(dict(h, pool=[obs(o) for o in pool]))
+            tr["events"].append(dict(h, raised=raised, pool=[obs(o) for o in pool]))
         out["traces"].append(tr)
     # field facts
     bname = job["backend"]
